@@ -333,11 +333,21 @@ func (u *Unit) callFunction(s *State, f *Frame, x *ssa.Call, callee *ssa.Functio
 		return nil
 	}
 	c := u.V.contractFor(callee)
-	if c != nil && !c.Inline {
+	// `opt inline=F,G` on the unit's contract: this unit executes the bodies of F and G instead of
+	// using their contracts (their contract may be too thin for what this unit has to prove)
+	wantInline := c != nil && c.Inline
+	if u.C != nil && u.C.Opts != nil && callee.Blocks != nil {
+		for _, n := range strings.Split(u.C.Opts["inline"], ",") {
+			if n = strings.TrimSpace(n); n != "" && n == callee.Name() {
+				wantInline = true
+			}
+		}
+	}
+	if c != nil && !wantInline {
 		u.applyContract(s, f, x, callee, c, args)
 		return nil
 	}
-	if callee.Blocks != nil && u.V.inRepo(callee) && (c != nil && c.Inline || u.V.inlinable(callee)) && len(s.Frames) < 12 && !u.onStack(s, callee) {
+	if callee.Blocks != nil && u.V.inRepo(callee) && (wantInline || u.V.inlinable(callee)) && len(s.Frames) < 12 && !u.onStack(s, callee) {
 		u.Inlined[key] = true
 		nf := &Frame{Fn: callee, Block: callee.Blocks[0], Vals: map[ssa.Value]Value{}, Cells: map[*ssa.Alloc]*Term{}, CallIn: x, Inlined: true}
 		for i, p := range callee.Params {
